@@ -350,9 +350,14 @@ def replay(ctx, payload):
     print("zone=%s wall=%d us=%d pre-images=%s impl(amb;fold0;fold1)=%s" % (c["zone"], c["w"], us, pre, Z.impl_wall_line(z, c["w"], us=us)))
     if pre is None:
         return False
-<<<<<<< HEAD
-    d0 = Z.wall_dt(z, c["w"], 0)
-    return tz.datetime_exists(d0) == (len(pre) >= 1) and tz.datetime_ambiguous(d0) == (len(pre) == 2)
+    global forms_all, OTHER_FIXED
+    forms_all = True
+    OTHER_FIXED = tz.tzoffset("X", 19800)
+    before = len(ctx.violations)
+    classify(ctx, "tzfile", c["zone"], z, c["w"], pre, None, True, True, us=us)
+    for v in ctx.violations[before:]:
+        print("still failing:", v["what"])
+    return len(ctx.violations) == before
 
 
 # --- appended by the translator tie (wt-iso): the tz lookup functions re-translated from tz/tz.py and tz/_common.py
@@ -369,13 +374,3 @@ TRUSTED = TRUSTED + [
     "translator tie: harness/translate_dt.py (DtPy) re-translates tzfile._find_last_transition/_get_ttinfo/_find_ttinfo/_resolve_ambiguous_time/_offset_before/is_ambiguous/fromutc/utcoffset/dst/tzname, _datetime_to_timestamp and tzrangebase._dst_base_offset/_naive_isdst/is_ambiguous/_isdst/utcoffset/dst/tzname/fromutc from /repo on every run into Generated/TzKernels.lean; Proofs/TzGenEq*.lean prove each equal to the function of Model/Zones.lean (for datetimes with microseconds; tzfile: on every coherent zone, i.e. build of a WF table with a transition), Properties/TzGen.lean lists the obligations gen_eq_model_* and the `_gen` twins in the audit; a behaviour-changing edit breaks the translation or a named obligation",
     "named primitives of the DtPy translator (Model/DtPy.lean), trusted with their documented meaning and exercised by the tzgen.* validation against the implementation's methods on every run: a datetime as (microseconds of the naive reading, fold, tzinfo-is-self), datetime +/- timedelta resets fold, timedelta.total_seconds() as an exact number (float rounding not modelled), int() truncation, bisect.bisect_right as its loop, list indexing with IndexError, attribute of None as AttributeError, unpacking None as TypeError, OverflowError of datetime arithmetic not modelled, `dt is None` tests on datetime parameters statically false; in the `_tzinfo` base-class functions `dt.utcoffset()`/`dt.dst()` are the zone's abstract offset functions applied to (wall seconds, fold) and `self.is_ambiguous(dt)` is dynamic dispatch (DtPy.dispatchAmbiguous: a subclass override if the GenericZone has one, else the translated base method)",
 ]
-=======
-    global forms_all, OTHER_FIXED
-    forms_all = True
-    OTHER_FIXED = tz.tzoffset("X", 19800)
-    before = len(ctx.violations)
-    classify(ctx, "tzfile", c["zone"], z, c["w"], pre, None, True, True, us=us)
-    for v in ctx.violations[before:]:
-        print("still failing:", v["what"])
-    return len(ctx.violations) == before
->>>>>>> wt-zones
